@@ -112,6 +112,18 @@ func buildInstrumented(kind string) (string, func(), error) {
 	args := []string{"build", "-tags", "verif", "-overlay", rep.Overlay}
 	if kind == "race" {
 		args = append(args, "-race")
+		// scratch go.mod that also replaces golang-set by its vsync copy
+		gm, err := os.ReadFile("/verif/harness/go.mod")
+		if err != nil {
+			return "", cleanup, err
+		}
+		gm = append(gm, []byte("\nreplace github.com/deckarep/golang-set => "+rep.SetDir+"\n")...)
+		if err := os.WriteFile(dir+"/go.mod", gm, 0o644); err != nil {
+			return "", cleanup, err
+		}
+		gs, _ := os.ReadFile("/verif/harness/go.sum")
+		os.WriteFile(dir+"/go.sum", gs, 0o644)
+		args = append(args, "-modfile="+dir+"/go.mod")
 	}
 	args = append(args, "-o", bin, "./cmd/check")
 	b := exec.Command("go", args...)
